@@ -565,6 +565,11 @@ pub fn gen_c11(seed: u64) -> SchedScenario {
             });
         }
     }
+    // a task far beyond the horizon (never fires within the run; it sits in the queue all along)
+    if r.chance(1, 8) {
+        let t = r.below(n_tasks as u64) as usize;
+        initials.push((t, *r.pick(&[1.0e9, 4294967296.0, 1.0e12, 9.0e15])));
+    }
     // insertion order relative to due time: increasing, decreasing or shuffled
     match r.below(3) {
         0 => initials.sort_by(|a, b| a.1.partial_cmp(&b.1).unwrap()),
